@@ -71,6 +71,20 @@ class Ctx:
     def layer(path):
         return path.lstrip("<").split("::")[0]
 
+    def flat_with(self, body, kept, tag):
+        """Flattened body under a caller-supplied policy kept(path) -> bool (True: leave the call in place)."""
+        if body is None:
+            return None
+        key = (body.path, "policy", tag)
+        if key not in self._flat:
+            fl = _flat.Flattener(self.facts, keep=kept)
+            fn = fl.flatten(body.path)
+            bad = _flat.validate(fn)
+            if bad:
+                raise AnchorLost("flattening of %s produced an inconsistent body: %s" % (body.path, bad[:3]))
+            self._flat[key] = Body(fn, self.facts)
+        return self.note(self._flat[key])
+
     def flat(self, body, keep=None, inline=None):
         """The body with crate-local helpers of the same layer (client / codec / core / io), awaited `async fn`
         helpers, std Option/Result combinators and their closures inlined (rules/flat.py). `keep`: extra regex of
